@@ -323,7 +323,7 @@ Proof.
   - change ((46 :: d :: ds) ++ ep) with (46 :: ((d :: ds) ++ ep)). rewrite scan_mantissa_dot.
     rewrite (scan_mantissa_digits _ _ _ _ _ Hds).
     rewrite (scan_mantissa_stop _ x _ _ true He (or_introl eq_refl)).
-    unfold dec_val. rewrite fold_left_app. f_equal. f_equal. lia.
+    unfold dec_val. rewrite fold_left_app. rewrite Z.add_0_l. reflexivity.
 Qed.
 
 Lemma IntPart_not_minus ip : IntPart ip -> forall (A : Type) (a b : ip ++ [] = ip ++ [] -> A), True.
@@ -343,3 +343,189 @@ Proof.
   - cbn [app]. rewrite (big_parse_unsigned _ _ _ _ _ Hi Hf He).
     rewrite (scan_exponent_val _ _ He). reflexivity.
 Qed.
+
+(* ================================================================================== *)
+(* A2. UTF-8 (utf8.DecodeRune / utf8.Valid models)                                      *)
+(* ================================================================================== *)
+
+Inductive FC : Z -> nat -> Z -> Z -> Prop :=
+| FC2 p : 194 <= p <= 223 -> FC p 2 128 191
+| FC3a : FC 224 3 160 191
+| FC3b p : 225 <= p <= 236 -> FC p 3 128 191
+| FC3c : FC 237 3 128 159
+| FC3d p : 238 <= p <= 239 -> FC p 3 128 191
+| FC4a : FC 240 4 144 191
+| FC4b p : 241 <= p <= 243 -> FC p 4 128 191
+| FC4c : FC 244 4 128 143
+| FC0 p : ~ (194 <= p <= 244) -> FC p 0 0 0.
+
+Lemma first_class_FC p : exists sz lo hi, first_class p = (sz, lo, hi) /\ FC p sz lo hi.
+Proof.
+  unfold first_class.
+  destruct (rng 194 223 p) eqn:E1. { apply rng_true in E1. do 3 eexists. split; [reflexivity|apply FC2; lia]. }
+  destruct (p =? 224) eqn:E2. { apply Z.eqb_eq in E2. subst. do 3 eexists. split; [reflexivity|apply FC3a]. }
+  destruct (rng 225 236 p) eqn:E3. { apply rng_true in E3. do 3 eexists. split; [reflexivity|apply FC3b; lia]. }
+  destruct (p =? 237) eqn:E4. { apply Z.eqb_eq in E4. subst. do 3 eexists. split; [reflexivity|apply FC3c]. }
+  destruct (rng 238 239 p) eqn:E5. { apply rng_true in E5. do 3 eexists. split; [reflexivity|apply FC3d; lia]. }
+  destruct (p =? 240) eqn:E6. { apply Z.eqb_eq in E6. subst. do 3 eexists. split; [reflexivity|apply FC4a]. }
+  destruct (rng 241 243 p) eqn:E7. { apply rng_true in E7. do 3 eexists. split; [reflexivity|apply FC4b; lia]. }
+  destruct (p =? 244) eqn:E8. { apply Z.eqb_eq in E8. subst. do 3 eexists. split; [reflexivity|apply FC4c]. }
+  do 3 eexists. split; [reflexivity|]. apply FC0.
+  apply rng_false in E1, E3, E5, E7. apply Z.eqb_neq in E2, E4, E6, E8. lia.
+Qed.
+
+Lemma go_rune_len_some bs k : go_rune_len bs = S k ->
+  exists mb more, bs = mb ++ more /\ length mb = S k /\ Utf8Multi mb.
+Proof.
+  unfold go_rune_len. destruct bs as [|p0 r]; [discriminate|].
+  destruct (first_class_FC p0) as [sz [lo [hi [E HFC]]]]. rewrite E.
+  destruct HFC; try discriminate;
+    (destruct r as [|b1 r1]; [discriminate|]);
+    match goal with |- context [rng ?lo ?hi b1] => destruct (rng lo hi b1) eqn:R1 end;
+    cbn [negb]; try discriminate; apply rng_true in R1; cbn [Nat.eqb].
+  - intro Hk; inversion Hk; subst. exists [p; b1], r1. repeat split. apply U2; [lia|unfold cont; lia].
+  - destruct r1 as [|b2 r2]; [discriminate|]. destruct (rng 128 191 b2) eqn:R2; [|discriminate].
+    apply rng_true in R2. cbn [negb]. intro Hk; inversion Hk; subst.
+    exists [224; b1; b2], r2. repeat split. apply U3_E0; [lia|unfold cont; lia].
+  - destruct r1 as [|b2 r2]; [discriminate|]. destruct (rng 128 191 b2) eqn:R2; [|discriminate].
+    apply rng_true in R2. cbn [negb]. intro Hk; inversion Hk; subst.
+    exists [p; b1; b2], r2. repeat split. apply U3_E1; unfold cont; lia.
+  - destruct r1 as [|b2 r2]; [discriminate|]. destruct (rng 128 191 b2) eqn:R2; [|discriminate].
+    apply rng_true in R2. cbn [negb]. intro Hk; inversion Hk; subst.
+    exists [237; b1; b2], r2. repeat split. apply U3_ED; [lia|unfold cont; lia].
+  - destruct r1 as [|b2 r2]; [discriminate|]. destruct (rng 128 191 b2) eqn:R2; [|discriminate].
+    apply rng_true in R2. cbn [negb]. intro Hk; inversion Hk; subst.
+    exists [p; b1; b2], r2. repeat split. apply U3_EE; unfold cont; lia.
+  - destruct r1 as [|b2 r2]; [discriminate|]. destruct (rng 128 191 b2) eqn:R2; [|discriminate].
+    apply rng_true in R2. cbn [negb]. destruct r2 as [|b3 r3]; [discriminate|].
+    destruct (rng 128 191 b3) eqn:R3; [|discriminate]. apply rng_true in R3.
+    intro Hk; inversion Hk; subst. exists [240; b1; b2; b3], r3. repeat split. apply U4_F0; unfold cont; lia.
+  - destruct r1 as [|b2 r2]; [discriminate|]. destruct (rng 128 191 b2) eqn:R2; [|discriminate].
+    apply rng_true in R2. cbn [negb]. destruct r2 as [|b3 r3]; [discriminate|].
+    destruct (rng 128 191 b3) eqn:R3; [|discriminate]. apply rng_true in R3.
+    intro Hk; inversion Hk; subst. exists [p; b1; b2; b3], r3. repeat split. apply U4_F1; unfold cont; lia.
+  - destruct r1 as [|b2 r2]; [discriminate|]. destruct (rng 128 191 b2) eqn:R2; [|discriminate].
+    apply rng_true in R2. cbn [negb]. destruct r2 as [|b3 r3]; [discriminate|].
+    destruct (rng 128 191 b3) eqn:R3; [|discriminate]. apply rng_true in R3.
+    intro Hk; inversion Hk; subst. exists [244; b1; b2; b3], r3. repeat split. apply U4_F4; unfold cont; lia.
+Qed.
+
+Ltac rng_yes := repeat match goal with
+  | |- context [rng ?lo ?hi ?b] =>
+      replace (rng lo hi b) with true by (symmetry; apply rng_true; unfold cont in *; lia)
+  end.
+
+Lemma first_class_of p sz lo hi : FC p sz lo hi -> first_class p = (sz, lo, hi).
+Proof.
+  intro H. destruct (first_class_FC p) as [sz' [lo' [hi' [E H']]]]. rewrite E.
+  inversion H; subst; inversion H'; subst; try reflexivity; try lia.
+Qed.
+
+Lemma go_rune_len_multi mb rest : Utf8Multi mb -> go_rune_len (mb ++ rest) = length mb.
+Proof.
+  intro H. inversion H; subst; cbn [app length]; unfold go_rune_len.
+  - rewrite (first_class_of b1 2 128 191) by (apply FC2; lia). rng_yes. reflexivity.
+  - rewrite (first_class_of 224 3 160 191) by apply FC3a. rng_yes. reflexivity.
+  - rewrite (first_class_of b1 3 128 191) by (apply FC3b; lia). rng_yes. reflexivity.
+  - rewrite (first_class_of 237 3 128 159) by apply FC3c. rng_yes. reflexivity.
+  - rewrite (first_class_of b1 3 128 191) by (apply FC3d; lia). rng_yes. reflexivity.
+  - rewrite (first_class_of 240 4 144 191) by apply FC4a. rng_yes. reflexivity.
+  - rewrite (first_class_of b1 4 128 191) by (apply FC4b; lia). rng_yes. reflexivity.
+  - rewrite (first_class_of 244 4 128 143) by apply FC4c. rng_yes. reflexivity.
+Qed.
+
+Lemma Utf8Multi_high mb : Utf8Multi mb -> Forall (fun b => 128 <= b) mb.
+Proof. intro H. inversion H; subst; repeat constructor; unfold cont in *; lia. Qed.
+
+Lemma Utf8Multi_cons mb : Utf8Multi mb -> exists c t, mb = c :: t /\ 128 <= c.
+Proof. intro H. inversion H; subst; do 2 eexists; (split; [reflexivity|lia]). Qed.
+
+(* pending bytes are skipped *)
+Lemma utf8_valid_pending pre more : utf8_valid_from (pre ++ more) (length pre) = utf8_valid_from more 0%nat.
+Proof. induction pre as [|c pre IH]; [reflexivity|]. cbn [app length utf8_valid_from]. exact IH. Qed.
+
+Lemma utf8_valid_multi mb more : Utf8Multi mb ->
+  utf8_valid_from (mb ++ more) 0%nat = utf8_valid_from more 0%nat.
+Proof.
+  intro H. destruct (Utf8Multi_cons _ H) as [c [t [E Hc]]].
+  assert (G := go_rune_len_multi mb more H). subst mb. cbn [app] in *. cbn [utf8_valid_from].
+  replace (c <? 128) with false by (symmetry; apply Z.ltb_ge; lia).
+  rewrite G. cbn [length]. apply utf8_valid_pending.
+Qed.
+
+Lemma utf8_valid_ascii c more : c < 128 ->
+  utf8_valid_from (c :: more) 0%nat = utf8_valid_from more 0%nat.
+Proof. intro H. cbn [utf8_valid_from]. replace (c <? 128) with true by (symmetry; apply Z.ltb_lt; lia). reflexivity. Qed.
+
+Lemma utf8_valid_ascii_list pre more : Forall (fun b => b < 128) pre ->
+  utf8_valid_from (pre ++ more) 0%nat = utf8_valid_from more 0%nat.
+Proof.
+  induction 1 as [|c pre Hc _ IH]; [reflexivity|]. cbn [app]. rewrite (utf8_valid_ascii _ _ Hc). exact IH.
+Qed.
+
+(* a valid list starts with an ASCII byte or a well-formed multi-byte sequence *)
+Lemma utf8_valid_step c r : utf8_valid_from (c :: r) 0%nat = true ->
+  (c < 128 /\ utf8_valid_from r 0%nat = true) \/
+  (exists mb more, c :: r = mb ++ more /\ Utf8Multi mb /\ utf8_valid_from more 0%nat = true).
+Proof.
+  intro H. destruct (Z.ltb_spec c 128) as [L|G].
+  - left. split; [exact L|]. rewrite (utf8_valid_ascii _ _ L) in H. exact H.
+  - right. cbn [utf8_valid_from] in H. replace (c <? 128) with false in H by (symmetry; apply Z.ltb_ge; lia).
+    destruct (go_rune_len (c :: r)) as [|k] eqn:E; [discriminate|].
+    destruct (go_rune_len_some _ _ E) as [mb [more [E1 [E2 E3]]]].
+    exists mb, more. repeat split; try assumption.
+    rewrite <- (utf8_valid_multi _ _ E3). rewrite <- E1. cbn [utf8_valid_from].
+    replace (c <? 128) with false by (symmetry; apply Z.ltb_ge; lia). rewrite E. exact H.
+Qed.
+
+(* mb lies before the first ASCII byte *)
+Lemma app_split_high : forall (mb a : list Z) c b more,
+  Forall (fun x => 128 <= x) mb -> c < 128 -> mb ++ more = a ++ c :: b ->
+  exists a', a = mb ++ a' /\ more = a' ++ c :: b.
+Proof.
+  induction mb as [|x mb IH]; intros a c b more Hmb Hc E.
+  - exists a. split; [reflexivity|exact E].
+  - inversion Hmb as [|? ? Hx Hmb']; subst. destruct a as [|y a].
+    + cbn [app] in E. inversion E; subst. lia.
+    + cbn [app] in E. inversion E; subst. destruct (IH a c b more Hmb' Hc H1) as [a' [E1 E2]].
+      exists a'. split; [cbn [app]; f_equal; exact E1|exact E2].
+Qed.
+
+(* validity splits at an ASCII byte *)
+Lemma utf8_valid_split_n : forall n a c b, (length a <= n)%nat -> c < 128 ->
+  utf8_valid_from (a ++ c :: b) 0%nat = true ->
+  utf8_valid_from a 0%nat = true /\ utf8_valid_from b 0%nat = true.
+Proof.
+  induction n as [|n IH]; intros a c b Hn Hc H.
+  - destruct a; [|simpl in Hn; lia]. cbn [app] in H. rewrite (utf8_valid_ascii _ _ Hc) in H. split; [reflexivity|exact H].
+  - destruct a as [|x a].
+    + cbn [app] in H. rewrite (utf8_valid_ascii _ _ Hc) in H. split; [reflexivity|exact H].
+    + cbn [app] in H. destruct (utf8_valid_step _ _ H) as [[Hx Hr]|[mb [more [E [Hm Hr]]]]].
+      * destruct (IH a c b) as [G1 G2]; [simpl in Hn; lia|exact Hc|exact Hr|].
+        split; [rewrite (utf8_valid_ascii _ _ Hx); exact G1|exact G2].
+      * destruct (app_split_high mb (x :: a) c b more (Utf8Multi_high _ Hm) Hc (eq_sym E)) as [a' [E1 E2]].
+        subst more. destruct (IH a' c b) as [G1 G2]; [|exact Hc|exact Hr|].
+        { destruct (Utf8Multi_cons _ Hm) as [c0 [t [-> _]]]. assert (L := f_equal (@length Z) E1).
+          rewrite app_length in L. simpl in L, Hn. lia. }
+        split; [rewrite E1; rewrite (utf8_valid_multi _ _ Hm); exact G1|exact G2].
+Qed.
+
+Lemma utf8_valid_split a c b : c < 128 -> utf8_valid (a ++ c :: b) = true ->
+  utf8_valid a = true /\ utf8_valid b = true.
+Proof. unfold utf8_valid. apply (utf8_valid_split_n (length a)). lia. Qed.
+
+Lemma utf8_valid_app_n : forall n a b, (length a <= n)%nat ->
+  utf8_valid_from a 0%nat = true -> utf8_valid_from b 0%nat = true -> utf8_valid_from (a ++ b) 0%nat = true.
+Proof.
+  induction n as [|n IH]; intros a b Hn Ha Hb.
+  - destruct a; [exact Hb|simpl in Hn; lia].
+  - destruct a as [|x a]; [exact Hb|].
+    destruct (utf8_valid_step _ _ Ha) as [[Hx Hr]|[mb [more [E [Hm Hr]]]]].
+    + cbn [app]. rewrite (utf8_valid_ascii _ _ Hx). apply IH; [simpl in Hn; lia|exact Hr|exact Hb].
+    + rewrite E. rewrite <- app_assoc. rewrite (utf8_valid_multi _ _ Hm). apply IH; [|exact Hr|exact Hb].
+      destruct (Utf8Multi_cons _ Hm) as [c0 [t [-> _]]]. assert (L := f_equal (@length Z) E).
+      rewrite app_length in L. simpl in L, Hn. lia.
+Qed.
+
+Lemma utf8_valid_app a b : utf8_valid a = true -> utf8_valid b = true -> utf8_valid (a ++ b) = true.
+Proof. unfold utf8_valid. apply (utf8_valid_app_n (length a)). lia. Qed.
